@@ -38,6 +38,7 @@ type UnitCfg struct {
 	NoNative   bool                `json:"no_native,omitempty"` // native replay impossible (stubs replace real code)
 	MaxAlloc   int                 `json:"max_alloc,omitempty"`
 	ClockStepNs int64              `json:"clock_step_ns,omitempty"` // >0: consecutive time.Now readings differ by at most this much, except across time.Sleep(d), which adds d
+	MapOrder   bool                `json:"map_order,omitempty"` // every range over a map runs first-to-last or last-to-first (fresh boolean per range statement)
 	LoopFeas   bool                `json:"loop_feasibility,omitempty"` // ask the solver once per loop wave whether the wave is feasible
 }
 
